@@ -64,7 +64,13 @@ Hier == { Lib("Nano", << LeafC, Cell("mid", << I("leaf", <<3, 11>>, o2[1], o2[2]
             : o1 \in Orient, o2 \in Orient }
      \cup { Lib("Nano", << Cell("top", << I("leaf", <<0, 0>>, FALSE, 0) >>, <<>>), LeafC >>) }    \* user listed before its dependency
 
-Libs == OneShape \cup UnitsCases \cup Multi \cup Hier
+\* wide fan-out: a parent listed first (and in the middle) instantiating four otherwise unrelated cells
+KidC(n, l) == Cell(n, <<>>, << E(l, "Drawing", "rect", << <<0,0>>, <<4,2>> >>, 0, "") >>)
+FanTopC == Cell("fan_top", << I("kid_c", <<0, 0>>, FALSE, -1), I("kid_a", <<0, 20>>, TRUE, -1), I("kid_d", <<30, 0>>, TRUE, 90),
+                             I("kid_b", <<60, 0>>, FALSE, 180) >>, <<>>)
+Fanout == { Lib("Nano", << FanTopC, KidC("kid_a", 1), KidC("kid_b", 2), KidC("kid_c", 1), KidC("kid_d", 2) >>),
+            Lib("Nano", << KidC("kid_d", 2), KidC("kid_b", 2), FanTopC, KidC("kid_a", 1), KidC("kid_c", 1) >>) }
+Libs == OneShape \cup UnitsCases \cup Multi \cup Hier \cup Fanout
 Init == c \in Libs
 Next == UNCHANGED c
 Spec == Init /\ [][Next]_c
